@@ -298,7 +298,7 @@ class Sim:
             if f.get('drop') == c:
                 self.trace.append((self.now, src, 'dropped', c))
                 return
-            if 'silent' in f and f['silent'][0] == src and self.tx_count[src] >= f['silent'][1]:
+            if 'silent' in f and f['silent'][0] == src and self.tx_count[src] >= f['silent'][1] and self.now < f.get('until', 1 << 62):
                 self.trace.append((self.now, src, 'silenced', c))
                 return
         for j, st in enumerate(self.stacks):
